@@ -798,12 +798,17 @@ pub fn standard_check<P: Prop>(prop: &P, o: &CheckOpts) -> i32 {
         new_violations += 1;
         let raw = write_replay(env, "-raw");
         println!("  run {} violates: class={} — minimising", env.run, v.class);
-        let min = if new_violations <= 3 { minimise(prop, env, 2000) } else { env.clone() };
-        // replay the minimised file's case once more before reporting it
-        let again = execute_any(prop, min.hash_seed, &min.case, false);
-        let (path, shown) = match again.violation {
-            Some(ref v2) if v2.class == v.class => (write_replay(&min, ""), min.violation.clone().unwrap()),
-            _ => (raw.clone(), v.clone()),
+        let (path, shown) = if v.class == "hang" {
+            // neither minimised nor re-executed here: every execution costs a full watchdog period
+            (raw.clone(), v.clone())
+        } else {
+            let min = if new_violations <= 3 { minimise(prop, env, 2000) } else { env.clone() };
+            // replay the minimised file's case once more before reporting it
+            let again = execute_any(prop, min.hash_seed, &min.case, false);
+            match again.violation {
+                Some(ref v2) if v2.class == v.class => (write_replay(&min, ""), min.violation.clone().unwrap()),
+                _ => (raw.clone(), v.clone()),
+            }
         };
         println!("  violation class={} detail={}", shown.class, shown.detail);
         println!("VIOLATION property={} replay={}", prop.id(), path.display());
